@@ -451,11 +451,12 @@ func (brr *BalanceRR) simpleBalance() (*backend.BfeBackend, error) {
 }
 
 func (brr *BalanceRR) stickyBalance(key []byte) (*backend.BfeBackend, error) {
-	candidates := make(BackendList, 0, brr.Len())
 	totalWeight := 0
 
 	brr.Lock()
 	defer brr.Unlock()
+
+	candidates := make(BackendList, 0, brr.Len())
 
 	// select available candidates
 	brr.ensureSortedUnlocked()
